@@ -550,8 +550,8 @@ def equivalent_documents(tier: str = "quick", known: list | None = None, **_: An
     d31["openapi"] = "3.1.0"
     compare("nullable-3.0-vs-3.1-type-list", base30, d31)
     # enum with null vs explicit union; single-element wrappers vs bare reference
-    e1 = doc({"E": obj({"e": {"enum": ["a", "b", None]}}), "W": obj({"w1": {"allOf": [ref("Leaf")]}, "w2": {"oneOf": [ref("Leaf")]}, "w3": {"anyOf": [ref("Leaf")]}}), "Leaf": obj({"x": INT})})
-    e2 = doc({"E": obj({"e": {"oneOf": [{"type": "null"}, {"enum": ["a", "b"]}]}}), "W": obj({"w1": ref("Leaf"), "w2": ref("Leaf"), "w3": ref("Leaf")}), "Leaf": obj({"x": INT})})
+    e1 = doc({"E": obj({"e": {"enum": ["a", "b", None]}, "e-dflt": {"type": "string", "enum": ["q", "d", None], "default": "q"}}), "W": obj({"w1": {"allOf": [ref("Leaf")]}, "w2": {"oneOf": [ref("Leaf")]}, "w3": {"anyOf": [ref("Leaf")]}}), "Leaf": obj({"x": INT})})
+    e2 = doc({"E": obj({"e": {"oneOf": [{"type": "null"}, {"enum": ["a", "b"]}]}, "e-dflt": {"oneOf": [{"type": "null"}, {"type": "string", "enum": ["q", "d"]}], "default": "q"}}), "W": obj({"w1": ref("Leaf"), "w2": ref("Leaf"), "w3": ref("Leaf")}), "Leaf": obj({"x": INT})})
     compare("enum-with-null-vs-union+wrappers-vs-bare-ref", e1, e2)
     return result("violated" if wit else "holds", f"{n} pairs of equivalent documents generate byte-identical trees", queries=n, witnesses=wit[:4], cases=["json-vs-yaml", "nullable-30-vs-31", "enum-null-vs-union", "single-ref-wrappers"], stubs=["replay oracle: concrete runs, not a solver verdict"])
 
@@ -560,3 +560,102 @@ def replay_equivalent(w: dict) -> dict:
     r = equivalent_documents(tier="thorough")
     hit = [x for x in r["witnesses"] if x["input"]["label"] == w["input"]["label"]]
     return {"reproduced": bool(hit), "observed": hit[0]["observed"] if hit else None}
+
+
+# ------------------------------------------------------------------------------------------------ C19 histories
+def _tree(root: Path) -> dict:
+    return {str(p.relative_to(root)): p.read_bytes() for p in sorted(root.rglob("*")) if p.is_file() and "__pycache__" not in p.parts and not p.name.endswith(".doc.json")}
+
+
+def _history_docs() -> dict:
+    from .skeletons import INT, STR, doc, jresp, obj, param, ref
+
+    a = doc({"Alpha": obj({"a": INT}), "Shared": obj({"s": STR})}, {"/a": {"get": {"operationId": "getA", "tags": ["one"], "responses": {"200": jresp(ref("Alpha"))}}}})
+    b = doc({"Beta": obj({"b": STR}), "Shared": obj({"s": STR, "t": INT})}, {"/b": {"post": {"operationId": "postB", "tags": ["two"], "parameters": [param("q", "query", STR)], "responses": {"200": jresp(ref("Beta"))}}}})
+    return {"A": a, "B": b}
+
+
+def run_history(hist: list, meta: str = "none") -> list[str]:
+    """hist: list of (doc key, overwrite, add_user_file_before)."""
+    docs = _history_docs()
+    root = gen.scratch("verif-hist-")
+    probs = []
+    try:
+        out_parent = root / "parent"
+        out_parent.mkdir()
+        (out_parent / "sibling.txt").write_text("do not touch")
+        target_name = "client_pkg"
+        user_files: dict[str, bytes] = {}
+        for step, (dk, overwrite, user) in enumerate(hist):
+            target = out_parent / target_name
+            if user and target.exists():
+                uf = (target / "models" / "my_notes.txt") if (target / "models").exists() and step % 2 else (target / "USER_FILE.md")
+                uf.write_bytes(b"user data %d" % step)
+            before = _tree(out_parent)
+            existed = target.exists()
+            errs, pdir = gen.generate(docs[dk], out_parent, target_name, meta=meta, overwrite=overwrite)
+            after = _tree(out_parent)
+            outside = {k for k in set(before) | set(after) if not k.startswith(target_name + "/") and before.get(k) != after.get(k)}
+            if outside:
+                probs.append(f"step {step}: files outside the output directory changed: {sorted(outside)[:3]}")
+            if existed and not overwrite:
+                if before != after:
+                    probs.append(f"step {step}: existing directory modified without --overwrite: {sorted(k for k in set(before) | set(after) if before.get(k) != after.get(k))[:3]}")
+                if len(errs) != 1 or getattr(errs[0].level, "value", "") != "ERROR":
+                    probs.append(f"step {step}: expected exactly one error, got {[e.detail for e in errs]}")
+            else:
+                fresh_root = gen.scratch("verif-hist-fresh-")
+                try:
+                    gen.generate(docs[dk], fresh_root, target_name, meta=meta)
+                    fresh = _tree(fresh_root)
+                finally:
+                    gen.cleanup(fresh_root)
+                mine = {k: v for k, v in after.items() if k.startswith(target_name + "/")}
+                for k, v in fresh.items():
+                    if mine.get(k) != v:
+                        probs.append(f"step {step}: {k} differs from a fresh generation of document {dk}")
+                        break
+                extra = sorted(k for k in mine if k not in fresh)
+                # user files outside models/ and api/ must survive untouched; anything else extra is stale output
+                for k in extra:
+                    rel = k[len(target_name) + 1:]
+                    in_rebuilt = rel.startswith(("models/", "api/")) or "/models/" in rel or "/api/" in rel
+                    if k in before and before[k].startswith(b"user data") and not in_rebuilt:
+                        if after[k] != before[k]:
+                            probs.append(f"step {step}: user file {k} was modified")
+                    elif in_rebuilt:
+                        probs.append(f"step {step}: stale module {k} from an earlier generation survives --overwrite")
+                    elif not before.get(k, b"").startswith(b"user data"):
+                        probs.append(f"step {step}: unexpected leftover file {k}")
+                for k, v in before.items():
+                    rel = k[len(target_name) + 1:] if k.startswith(target_name + "/") else k
+                    if v.startswith(b"user data") and not (rel.startswith(("models/", "api/")) or "/models/" in rel or "/api/" in rel) and after.get(k) != v:
+                        probs.append(f"step {step}: user file {k} did not survive")
+        return probs
+    finally:
+        gen.cleanup(root)
+
+
+def histories(tier: str = "quick", known: list | None = None, **_: Any) -> dict:
+    import itertools
+
+    steps = [(d, o, u) for d in ("A", "B") for o in (False, True) for u in (False, True)]
+    L = 2 if tier == "quick" else 3
+    wit, n = [], 0
+    for meta in (("none", "poetry") if tier == "quick" else ("none", "poetry", "setup", "pdm")):
+        for hist in itertools.product(steps, repeat=L):
+            if meta != "none" and tier == "quick" and n % 3:
+                n += 1
+                continue
+            n += 1
+            probs = run_history(list(hist), meta)
+            if probs:
+                wit.append({"what": f"history {hist} (meta={meta}) violates no-clobber / convergence", "input": {"history": [list(h) for h in hist], "meta": meta}, "history": True, "observed": probs[:4], "reproduced": True, "replay_func": "vlib.props.C19:replay"})
+                if len(wit) > 5:
+                    break
+    return result("violated" if wit else "holds", f"{n} histories of length {L} against one output location", queries=n, witnesses=wit[:5], cases=["no-clobber", "overwrite-converges", "user-files-survive", "nothing-outside"], bounds={"history length": L, "documents": 2, "steps": 8}, stubs=["replay oracle: concrete runs of the real generator against scratch directories, not a solver verdict"])
+
+
+def replay_history(w: dict) -> dict:
+    probs = run_history([tuple(h) for h in w["input"]["history"]], w["input"]["meta"])
+    return {"reproduced": bool(probs), "observed": probs[:4]}
